@@ -56,6 +56,12 @@ def interval(n, env=None):
         return type_range(ir.qtype(n))
     if k == "UnaryOperator":
         op = n.get("opcode")
+        lits = env.get("__lits__") if isinstance(env, dict) else None
+        if op == "*" and lits:
+            b0 = ir.strip(ks[0])
+            if b0.get("kind") == "DeclRefExpr" and (b0.get("referencedDecl") or {}).get("id") in lits:
+                body = [ord(ch) for ch in lits[(b0.get("referencedDecl") or {}).get("id")]] + [0]
+                return (min(body), max(body))
         a = interval(ks[0], env)
         if op == "-" and a is not None:
             return (-a[1], -a[0])
@@ -96,6 +102,11 @@ def interval(n, env=None):
         return res
     if k == "ArraySubscriptExpr":
         base = ir.strip(ks[0])
+        lits = env.get("__lits__") if isinstance(env, dict) else None
+        if lits and base.get("kind") == "DeclRefExpr" and (base.get("referencedDecl") or {}).get("id") in lits:
+            v = lits[(base.get("referencedDecl") or {}).get("id")]
+            body = [ord(ch) for ch in v] + [0]
+            return (min(body), max(body))
         if base.get("kind") == "StringLiteral":
             v = base.get("value", "")
             if len(v) >= 2 and v[0] == '"' and v[-1] == '"' and "\\" not in v and all(32 <= ord(ch) < 127 for ch in v):
